@@ -1,5 +1,5 @@
 // auto-generated: "lalrpop 0.23.1"
-// sha3: b8ce223b177c12d608bfff37bd4027e3f45d2a9d872bcb64ce740dd75bd5d4a6
+// sha3: e31cb819b236c68d1f695abf58c44493da9a654e32cde106a2f0d186775a5c05
 use crate::rt::*;
 #[allow(unused_extern_crates)]
 extern crate lalrpop_util as __lalrpop_util;
@@ -29,38 +29,40 @@ mod __parse__S {
     }
     const __ACTION: &[i8] = &[
         // State 0
-        2, 3, 0, 0, 0, 0,
+        2, 3, 0, 0, 0, 0, 0,
         // State 1
-        0, 0, 0, 0, 4, 0,
+        0, 0, 0, 0, 6, 7, 0,
         // State 2
-        0, 0, 0, 0, 5, 0,
+        0, 0, 0, 0, 9, 7, 0,
         // State 3
-        0, 0, 0, 0, 0, 11,
+        0, 0, 0, 0, 0, 0, 0,
         // State 4
-        0, 0, 0, 0, 0, 11,
+        0, 0, 10, 0, 0, 0, 0,
         // State 5
-        0, 0, 0, 0, 0, 0,
+        0, 0, 0, 0, 0, 0, 11,
         // State 6
-        0, 0, 9, 0, 0, 0,
+        0, 0, 0, 0, 0, 0, 12,
         // State 7
-        0, 0, 0, 12, 0, 0,
+        0, 0, 0, 13, 0, 0, 0,
         // State 8
-        0, 0, 0, 0, 0, 0,
+        0, 0, 0, 0, 0, 0, 14,
         // State 9
-        0, 0, -9, 14, 0, 0,
+        0, 0, 0, 0, 0, 0, 0,
         // State 10
-        0, 0, -3, -3, 0, 0,
+        0, 0, 0, 15, 0, 0, 0,
         // State 11
-        0, 0, 0, 0, 0, 0,
+        0, 0, -9, -9, 0, 0, 0,
         // State 12
-        0, 0, 15, -9, 0, 0,
+        0, 0, 0, 0, 0, 0, 0,
         // State 13
-        0, 0, 0, 0, 0, 0,
+        0, 0, 16, 0, 0, 0, 0,
         // State 14
-        0, 0, 0, 0, 0, 0,
+        0, 0, 0, 0, 0, 0, 0,
+        // State 15
+        0, 0, 0, 0, 0, 0, 0,
     ];
     fn __action(state: i8, integer: usize) -> i8 {
-        __ACTION[(state as usize) * 6 + integer]
+        __ACTION[(state as usize) * 7 + integer]
     }
     const __EOF_ACTION: &[i8] = &[
         // State 0
@@ -70,40 +72,38 @@ mod __parse__S {
         // State 2
         0,
         // State 3
-        0,
+        -10,
         // State 4
         0,
         // State 5
-        -10,
+        0,
         // State 6
         0,
         // State 7
         0,
         // State 8
-        -5,
-        // State 9
         0,
+        // State 9
+        -5,
         // State 10
         0,
         // State 11
-        -7,
-        // State 12
         0,
-        // State 13
-        -4,
-        // State 14
+        // State 12
         -6,
+        // State 13
+        0,
+        // State 14
+        -3,
+        // State 15
+        -4,
     ];
     fn __goto(state: i8, nt: usize) -> i8 {
         match nt {
-            2 => match state {
-                4 => 12,
-                _ => 9,
-            },
-            3 => 5,
+            2 => 3,
             5 => match state {
                 2 => 7,
-                _ => 6,
+                _ => 4,
             },
             _ => 0,
         }
@@ -115,7 +115,8 @@ mod __parse__S {
         r###""c""###,
         r###""d""###,
         r###""e""###,
-        r###""q""###,
+        r###""f""###,
+        r###""x""###,
     ];
     fn __expected_tokens(__state: i8) -> alloc::vec::Vec<alloc::string::String> {
         __TERMINAL.iter().enumerate().filter_map(|(index, terminal)| {
@@ -182,7 +183,7 @@ mod __parse__S {
 
         #[inline]
         fn error_action(&self, state: i8) -> i8 {
-            __action(state, 6 - 1)
+            __action(state, 7 - 1)
         }
 
         #[inline]
@@ -254,6 +255,7 @@ mod __parse__S {
             Tok('d', _, _, _) if true => Some(3),
             Tok('e', _, _, _) if true => Some(4),
             Tok('f', _, _, _) if true => Some(5),
+            Tok('g', _, _, _) if true => Some(6),
             _ => None,
         }
     }
@@ -265,7 +267,7 @@ mod __parse__S {
     ) -> __Symbol<>
     {
         #[allow(clippy::manual_range_patterns)]match __token_index {
-            0 | 1 | 2 | 3 | 4 | 5 => __Symbol::Variant0(__token),
+            0 | 1 | 2 | 3 | 4 | 5 | 6 => __Symbol::Variant0(__token),
             _ => unreachable!(),
         }
     }
@@ -290,37 +292,37 @@ mod __parse__S {
             }
             2 => {
                 __state_machine::SimulatedReduce::Reduce {
-                    states_to_pop: 1,
+                    states_to_pop: 4,
                     nonterminal_produced: 2,
                 }
             }
             3 => {
                 __state_machine::SimulatedReduce::Reduce {
                     states_to_pop: 4,
-                    nonterminal_produced: 3,
+                    nonterminal_produced: 2,
                 }
             }
             4 => {
                 __state_machine::SimulatedReduce::Reduce {
                     states_to_pop: 3,
-                    nonterminal_produced: 3,
+                    nonterminal_produced: 2,
                 }
             }
             5 => {
                 __state_machine::SimulatedReduce::Reduce {
-                    states_to_pop: 4,
-                    nonterminal_produced: 3,
+                    states_to_pop: 3,
+                    nonterminal_produced: 2,
                 }
             }
             6 => {
                 __state_machine::SimulatedReduce::Reduce {
-                    states_to_pop: 3,
+                    states_to_pop: 2,
                     nonterminal_produced: 3,
                 }
             }
             7 => {
                 __state_machine::SimulatedReduce::Reduce {
-                    states_to_pop: 2,
+                    states_to_pop: 1,
                     nonterminal_produced: 4,
                 }
             }
@@ -520,13 +522,17 @@ mod __parse__S {
         _: core::marker::PhantomData<()>,
     ) -> (usize, usize)
     {
-        // Q = "q" => ActionFn(17);
+        // S = "a", "e", "x", "d" => ActionFn(26);
+        assert!(__symbols.len() >= 4);
+        let __sym3 = __pop_Variant0(__symbols);
+        let __sym2 = __pop_Variant0(__symbols);
+        let __sym1 = __pop_Variant0(__symbols);
         let __sym0 = __pop_Variant0(__symbols);
         let __start = __sym0.0.clone();
-        let __end = __sym0.2.clone();
-        let __nt = super::__action17::<>(__sym0);
+        let __end = __sym3.2.clone();
+        let __nt = super::__action26::<>(__sym0, __sym1, __sym2, __sym3);
         __symbols.push((__start, __Symbol::Variant2(__nt), __end));
-        (1, 2)
+        (4, 2)
     }
     fn __reduce3<
     >(
@@ -535,17 +541,17 @@ mod __parse__S {
         _: core::marker::PhantomData<()>,
     ) -> (usize, usize)
     {
-        // S = "a", "e", Q, "d" => ActionFn(24);
+        // S = "b", "e", "x", "c" => ActionFn(27);
         assert!(__symbols.len() >= 4);
         let __sym3 = __pop_Variant0(__symbols);
-        let __sym2 = __pop_Variant2(__symbols);
+        let __sym2 = __pop_Variant0(__symbols);
         let __sym1 = __pop_Variant0(__symbols);
         let __sym0 = __pop_Variant0(__symbols);
         let __start = __sym0.0.clone();
         let __end = __sym3.2.clone();
-        let __nt = super::__action24::<>(__sym0, __sym1, __sym2, __sym3);
+        let __nt = super::__action27::<>(__sym0, __sym1, __sym2, __sym3);
         __symbols.push((__start, __Symbol::Variant2(__nt), __end));
-        (4, 3)
+        (4, 2)
     }
     fn __reduce4<
     >(
@@ -563,7 +569,7 @@ mod __parse__S {
         let __end = __sym2.2.clone();
         let __nt = super::__action19::<>(__sym0, __sym1, __sym2);
         __symbols.push((__start, __Symbol::Variant2(__nt), __end));
-        (3, 3)
+        (3, 2)
     }
     fn __reduce5<
     >(
@@ -572,17 +578,16 @@ mod __parse__S {
         _: core::marker::PhantomData<()>,
     ) -> (usize, usize)
     {
-        // S = "b", "e", Q, "c" => ActionFn(25);
-        assert!(__symbols.len() >= 4);
-        let __sym3 = __pop_Variant0(__symbols);
-        let __sym2 = __pop_Variant2(__symbols);
-        let __sym1 = __pop_Variant0(__symbols);
+        // S = "b", Y, "d" => ActionFn(20);
+        assert!(__symbols.len() >= 3);
+        let __sym2 = __pop_Variant0(__symbols);
+        let __sym1 = __pop_Variant2(__symbols);
         let __sym0 = __pop_Variant0(__symbols);
         let __start = __sym0.0.clone();
-        let __end = __sym3.2.clone();
-        let __nt = super::__action25::<>(__sym0, __sym1, __sym2, __sym3);
+        let __end = __sym2.2.clone();
+        let __nt = super::__action20::<>(__sym0, __sym1, __sym2);
         __symbols.push((__start, __Symbol::Variant2(__nt), __end));
-        (4, 3)
+        (3, 2)
     }
     fn __reduce6<
     >(
@@ -591,16 +596,15 @@ mod __parse__S {
         _: core::marker::PhantomData<()>,
     ) -> (usize, usize)
     {
-        // S = "b", Y, "d" => ActionFn(21);
-        assert!(__symbols.len() >= 3);
-        let __sym2 = __pop_Variant0(__symbols);
-        let __sym1 = __pop_Variant2(__symbols);
+        // X = "e", "x" => ActionFn(24);
+        assert!(__symbols.len() >= 2);
+        let __sym1 = __pop_Variant0(__symbols);
         let __sym0 = __pop_Variant0(__symbols);
         let __start = __sym0.0.clone();
-        let __end = __sym2.2.clone();
-        let __nt = super::__action21::<>(__sym0, __sym1, __sym2);
+        let __end = __sym1.2.clone();
+        let __nt = super::__action24::<>(__sym0, __sym1);
         __symbols.push((__start, __Symbol::Variant2(__nt), __end));
-        (3, 3)
+        (2, 3)
     }
     fn __reduce7<
     >(
@@ -609,15 +613,13 @@ mod __parse__S {
         _: core::marker::PhantomData<()>,
     ) -> (usize, usize)
     {
-        // X = "e", Q => ActionFn(22);
-        assert!(__symbols.len() >= 2);
-        let __sym1 = __pop_Variant2(__symbols);
+        // X2 = "x" => ActionFn(22);
         let __sym0 = __pop_Variant0(__symbols);
         let __start = __sym0.0.clone();
-        let __end = __sym1.2.clone();
-        let __nt = super::__action22::<>(__sym0, __sym1);
+        let __end = __sym0.2.clone();
+        let __nt = super::__action22::<>(__sym0);
         __symbols.push((__start, __Symbol::Variant2(__nt), __end));
-        (2, 4)
+        (1, 4)
     }
     fn __reduce8<
     >(
@@ -626,13 +628,13 @@ mod __parse__S {
         _: core::marker::PhantomData<()>,
     ) -> (usize, usize)
     {
-        // Y = "e", Q => ActionFn(23);
+        // Y = "f", "x" => ActionFn(25);
         assert!(__symbols.len() >= 2);
-        let __sym1 = __pop_Variant2(__symbols);
+        let __sym1 = __pop_Variant0(__symbols);
         let __sym0 = __pop_Variant0(__symbols);
         let __start = __sym0.0.clone();
         let __end = __sym1.2.clone();
-        let __nt = super::__action23::<>(__sym0, __sym1);
+        let __nt = super::__action25::<>(__sym0, __sym1);
         __symbols.push((__start, __Symbol::Variant2(__nt), __end));
         (2, 5)
     }
@@ -733,7 +735,7 @@ fn __action7<
     (_, r, _): (i64, i64, i64),
 ) -> Tree
 {
-    node("Q#0", l, r, vec![Tree::from(c0)])
+    node("X2#0", l, r, vec![Tree::from(c0)])
 }
 
 #[allow(clippy::needless_lifetimes, clippy::clone_on_copy)]
@@ -761,28 +763,6 @@ fn __action9<
 fn __action10<
 >(
     __0: (i64, Tok, i64),
-    __1: (i64, i64, i64),
-) -> Tree
-{
-    let __start0 = __0.0.clone();
-    let __end0 = __0.0.clone();
-    let __temp0 = __action9(
-        &__start0,
-        &__end0,
-    );
-    let __temp0 = (__start0, __temp0, __end0);
-    __action7(
-        __temp0,
-        __0,
-        __1,
-    )
-}
-
-#[allow(clippy::too_many_arguments, clippy::needless_lifetimes,
-    clippy::just_underscores_and_digits, clippy::clone_on_copy, clippy::unit_arg)]
-fn __action11<
->(
-    __0: (i64, Tok, i64),
     __1: (i64, Tree, i64),
     __2: (i64, Tok, i64),
     __3: (i64, i64, i64),
@@ -806,7 +786,7 @@ fn __action11<
 
 #[allow(clippy::too_many_arguments, clippy::needless_lifetimes,
     clippy::just_underscores_and_digits, clippy::clone_on_copy, clippy::unit_arg)]
-fn __action12<
+fn __action11<
 >(
     __0: (i64, Tok, i64),
     __1: (i64, Tree, i64),
@@ -832,7 +812,7 @@ fn __action12<
 
 #[allow(clippy::too_many_arguments, clippy::needless_lifetimes,
     clippy::just_underscores_and_digits, clippy::clone_on_copy, clippy::unit_arg)]
-fn __action13<
+fn __action12<
 >(
     __0: (i64, Tok, i64),
     __1: (i64, Tree, i64),
@@ -858,7 +838,7 @@ fn __action13<
 
 #[allow(clippy::too_many_arguments, clippy::needless_lifetimes,
     clippy::just_underscores_and_digits, clippy::clone_on_copy, clippy::unit_arg)]
-fn __action14<
+fn __action13<
 >(
     __0: (i64, Tok, i64),
     __1: (i64, Tree, i64),
@@ -884,7 +864,7 @@ fn __action14<
 
 #[allow(clippy::too_many_arguments, clippy::needless_lifetimes,
     clippy::just_underscores_and_digits, clippy::clone_on_copy, clippy::unit_arg)]
-fn __action15<
+fn __action14<
 >(
     __0: (i64, Tok, i64),
     __1: (i64, Tree, i64),
@@ -903,6 +883,28 @@ fn __action15<
         __0,
         __1,
         __2,
+    )
+}
+
+#[allow(clippy::too_many_arguments, clippy::needless_lifetimes,
+    clippy::just_underscores_and_digits, clippy::clone_on_copy, clippy::unit_arg)]
+fn __action15<
+>(
+    __0: (i64, Tok, i64),
+    __1: (i64, i64, i64),
+) -> Tree
+{
+    let __start0 = __0.0.clone();
+    let __end0 = __0.0.clone();
+    let __temp0 = __action9(
+        &__start0,
+        &__end0,
+    );
+    let __temp0 = (__start0, __temp0, __end0);
+    __action7(
+        __temp0,
+        __0,
+        __1,
     )
 }
 
@@ -935,10 +937,12 @@ fn __action16<
 fn __action17<
 >(
     __0: (i64, Tok, i64),
+    __1: (i64, Tree, i64),
+    __2: (i64, Tok, i64),
 ) -> Tree
 {
-    let __start0 = __0.2.clone();
-    let __end0 = __0.2.clone();
+    let __start0 = __2.2.clone();
+    let __end0 = __2.2.clone();
     let __temp0 = __action8(
         &__start0,
         &__end0,
@@ -946,6 +950,8 @@ fn __action17<
     let __temp0 = (__start0, __temp0, __end0);
     __action10(
         __0,
+        __1,
+        __2,
         __temp0,
     )
 }
@@ -1028,30 +1034,6 @@ fn __action21<
 >(
     __0: (i64, Tok, i64),
     __1: (i64, Tree, i64),
-    __2: (i64, Tok, i64),
-) -> Tree
-{
-    let __start0 = __2.2.clone();
-    let __end0 = __2.2.clone();
-    let __temp0 = __action8(
-        &__start0,
-        &__end0,
-    );
-    let __temp0 = (__start0, __temp0, __end0);
-    __action14(
-        __0,
-        __1,
-        __2,
-        __temp0,
-    )
-}
-
-#[allow(clippy::too_many_arguments, clippy::needless_lifetimes,
-    clippy::just_underscores_and_digits, clippy::clone_on_copy, clippy::unit_arg)]
-fn __action22<
->(
-    __0: (i64, Tok, i64),
-    __1: (i64, Tree, i64),
 ) -> Tree
 {
     let __start0 = __1.2.clone();
@@ -1061,9 +1043,29 @@ fn __action22<
         &__end0,
     );
     let __temp0 = (__start0, __temp0, __end0);
-    __action15(
+    __action14(
         __0,
         __1,
+        __temp0,
+    )
+}
+
+#[allow(clippy::too_many_arguments, clippy::needless_lifetimes,
+    clippy::just_underscores_and_digits, clippy::clone_on_copy, clippy::unit_arg)]
+fn __action22<
+>(
+    __0: (i64, Tok, i64),
+) -> Tree
+{
+    let __start0 = __0.2.clone();
+    let __end0 = __0.2.clone();
+    let __temp0 = __action8(
+        &__start0,
+        &__end0,
+    );
+    let __temp0 = (__start0, __temp0, __end0);
+    __action15(
+        __0,
         __temp0,
     )
 }
@@ -1096,21 +1098,17 @@ fn __action24<
 >(
     __0: (i64, Tok, i64),
     __1: (i64, Tok, i64),
-    __2: (i64, Tree, i64),
-    __3: (i64, Tok, i64),
 ) -> Tree
 {
     let __start0 = __1.0.clone();
-    let __end0 = __2.2.clone();
+    let __end0 = __1.2.clone();
     let __temp0 = __action22(
         __1,
-        __2,
     );
     let __temp0 = (__start0, __temp0, __end0);
-    __action18(
+    __action21(
         __0,
         __temp0,
-        __3,
     )
 }
 
@@ -1120,18 +1118,62 @@ fn __action25<
 >(
     __0: (i64, Tok, i64),
     __1: (i64, Tok, i64),
-    __2: (i64, Tree, i64),
+) -> Tree
+{
+    let __start0 = __1.0.clone();
+    let __end0 = __1.2.clone();
+    let __temp0 = __action22(
+        __1,
+    );
+    let __temp0 = (__start0, __temp0, __end0);
+    __action23(
+        __0,
+        __temp0,
+    )
+}
+
+#[allow(clippy::too_many_arguments, clippy::needless_lifetimes,
+    clippy::just_underscores_and_digits, clippy::clone_on_copy, clippy::unit_arg)]
+fn __action26<
+>(
+    __0: (i64, Tok, i64),
+    __1: (i64, Tok, i64),
+    __2: (i64, Tok, i64),
     __3: (i64, Tok, i64),
 ) -> Tree
 {
     let __start0 = __1.0.clone();
     let __end0 = __2.2.clone();
-    let __temp0 = __action22(
+    let __temp0 = __action24(
         __1,
         __2,
     );
     let __temp0 = (__start0, __temp0, __end0);
-    __action20(
+    __action17(
+        __0,
+        __temp0,
+        __3,
+    )
+}
+
+#[allow(clippy::too_many_arguments, clippy::needless_lifetimes,
+    clippy::just_underscores_and_digits, clippy::clone_on_copy, clippy::unit_arg)]
+fn __action27<
+>(
+    __0: (i64, Tok, i64),
+    __1: (i64, Tok, i64),
+    __2: (i64, Tok, i64),
+    __3: (i64, Tok, i64),
+) -> Tree
+{
+    let __start0 = __1.0.clone();
+    let __end0 = __2.2.clone();
+    let __temp0 = __action24(
+        __1,
+        __2,
+    );
+    let __temp0 = (__start0, __temp0, __end0);
+    __action18(
         __0,
         __temp0,
         __3,
